@@ -932,12 +932,17 @@ def r09k(ctx):
     if tga is None:
         raise AnalysisError('R09k: try_get_args not found')
 
+    class _Rec(tuple):
+        fields: tuple = ()
+
     class _A(Mini):
         def expr(self, e, env):
             if isinstance(e, ast.Attribute):
                 o = self.expr(e.value, env)
                 if isinstance(o, Obj) and e.attr in o.attrs:
                     return o.attrs[e.attr]
+                if isinstance(o, _Rec) and e.attr in o.fields:
+                    return o[o.fields.index(e.attr)]
                 return ('boundmethod', o, e.attr)
             return super().expr(e, env)
 
@@ -1026,6 +1031,19 @@ def r09k(ctx):
                     }
                     g['try_get_args'] = Token('try_get_args', lambda *a, _g=g: _A(_g).call_function(
                         tga, list(a)))
+                    # records (NamedTuple / dataclass-like classes of the module) as constructors
+                    for cd in ann.tree.body:
+                        if isinstance(cd, ast.ClassDef):
+                            fields = [st.target.id for st in cd.body
+                                      if isinstance(st, ast.AnnAssign) and
+                                      isinstance(st.target, ast.Name)]
+
+                            def ctor(*a, _f=tuple(fields), _n=cd.name, **k):
+                                vals = list(a) + [k[x] for x in _f[len(a):] if x in k]
+                                r = _Rec(vals)
+                                r.fields = _f
+                                return r
+                            g[cd.name] = ctor
                     for nm, st in fdefs.items():
                         if nm not in g and st is not fd:
                             g[nm] = Token('fn:' + nm, lambda *a, _n=st, _g=g, **k: _A(_g).call_function(
